@@ -368,6 +368,18 @@ var c37ACLs = []struct{ allow, deny []string }{
 	{[]string{"orders", "payments", "shipments"}, []string{"payments"}},
 	{[]string{" orders ", ""}, nil},
 	{[]string{"café", "orders"}, nil},
+	// what matters is whether the CONFIGURED list is empty, not only what it matches:
+	// an allow list of blank entries matches nothing (deny everything), it is not "no allow list"
+	{[]string{""}, nil},
+	{[]string{"  "}, nil},
+	{[]string{"", " ", "\t"}, nil},
+	{[]string{""}, []string{"secret"}},
+	{nil, []string{""}},
+	{nil, []string{" ", ""}},
+	{[]string{"*"}, []string{""}},
+	{[]string{}, []string{}},
+	{[]string{"orders", "orders", " orders"}, []string{"secret", "secret"}},
+	{[]string{"", "orders"}, []string{"", "secret"}},
 }
 var c37Ws = []string{" ", " ", " ", "  ", "\t", "\n", " \n ", "\u00a0", "\u2003", "\u3000"}
 
@@ -696,8 +708,30 @@ func c37GenCase(r *vRand) c37Case {
 	return cs
 }
 
+// c37RealVerdicts asks the code under test, through the production path (proxy.New with the
+// raw configured lists -> handleConn builds its ACL from the configuration), whether each
+// topic is allowed and whether SHOW TOPICS is: one connection without cache, a
+// "describe <topic>;" probe per topic (Parse strips the ';' and yields exactly the topic).
+func c37RealVerdicts(cs c37Case, topics []string) (map[string]bool, bool, string) {
+	probe := c37Case{Allow: cs.Allow, Deny: cs.Deny}
+	for _, t := range topics {
+		probe.Msgs = append(probe.Msgs, []byte("describe "+t+";"))
+	}
+	probe.Msgs = append(probe.Msgs, []byte("show topics"))
+	obs := c37Run(probe)
+	if obs.err != "" || len(obs.forwarded) != len(probe.Msgs) {
+		return nil, false, "probe connection failed: " + obs.err
+	}
+	out := map[string]bool{}
+	for i, t := range topics {
+		out[t] = obs.forwarded[i]
+	}
+	return out, obs.forwarded[len(topics)], ""
+}
+
 func c37Coq(cs c37Case, obs c37Obs) string {
 	acl := ACL{Allow: cs.Allow, Deny: cs.Deny}
+	_ = acl
 	topicSet := map[string]bool{"*": true}
 	msgs := make([]string, len(cs.Msgs))
 	for i, m := range cs.Msgs {
@@ -720,9 +754,22 @@ func c37Coq(cs c37Case, obs c37Obs) string {
 		msgs[i] = fmt.Sprintf("mkMsg %s %s %s %s %s %s", cqStr(text), cqBool(ok), cqList(ts), cqBool(show), cqBool(fwd), cqStr(cacheKey(text)))
 	}
 	var tab, real []string
+	var probeTopics []string
+	for t := range topicSet {
+		if t != "" && len(strings.Fields(t)) == 1 && strings.Fields(t)[0] == t && t != "*" {
+			probeTopics = append(probeTopics, t)
+		}
+	}
+	sort.Strings(probeTopics)
+	verdicts, realShow, perr := c37RealVerdicts(cs, probeTopics)
+	if perr != "" {
+		verdicts, realShow = map[string]bool{}, !c37RefAllowShow(cs.Allow, cs.Deny) // forces a mismatch
+	}
 	for t := range topicSet {
 		tab = append(tab, fmt.Sprintf("(%s, (%s, %s))", cqStr(t), cqBool(c37RefMatch(cs.Deny, t)), cqBool(c37RefMatch(cs.Allow, t))))
-		real = append(real, fmt.Sprintf("(%s, %s)", cqStr(t), cqBool(acl.Allows(t))))
+		if v, ok := verdicts[t]; ok {
+			real = append(real, fmt.Sprintf("(%s, %s)", cqStr(t), cqBool(v)))
+		}
 	}
 	sort.Strings(real)
 	// deterministic order
@@ -740,11 +787,11 @@ func c37Coq(cs c37Case, obs c37Obs) string {
 		}
 		return cqList(items)
 	}
-	return fmt.Sprintf("mkCase %s %s %d %d %s %s %s %s", strs(cs.Allow), strs(cs.Deny), cs.TTL, cs.Max, cqList(tab), cqList(real), cqBool(acl.AllowShowTopics()), cqList(msgs))
+	return fmt.Sprintf("mkCase %s %s %d %d %s %s %s %s", strs(cs.Allow), strs(cs.Deny), cs.TTL, cs.Max, cqList(tab), cqList(real), cqBool(realShow), cqList(msgs))
 }
 
 func TestVerifC37(t *testing.T) {
-	rep := vNewReport("C37", "client connections through the real proxy handleConn (fake pgwire client, fake upstream recording received texts): 2-8 query messages per connection; selects / joins / explain / show / describe over allowed and forbidden topics, texts of 400-700 bytes with the join or second topic placed around byte 512 (white-space or column-list padding), trailing ';' variants, SET/RESET/empty/garbage, exact repeats and same-cache-key variants (cache hits), near misses of an allowed statement on the same connection (topic / join-topic names differing in a digit, in a digit-only segment after '-' '.' '_', in trailing punctuation, quotes, inner white space, a non-ASCII letter; numbers in LIMIT / offset / literal positions) with ACLs allowing exactly one of the two names, ACLs written with every path.Match feature ('?', classes, negated classes, escapes, malformed patterns, blank entries) in allow and in deny lists over topics that match only through them, keyword case and multi-byte white space; 11 ACL shapes (allow lists, deny lists, patterns, empty); cache off / tiny / large. Non-trivial = at least one text is forwarded and at least one refused, or a text longer than 512 bytes is involved; distinct = distinct (ACL, cache, messages)")
+	rep := vNewReport("C37", "client connections through the real proxy handleConn (fake pgwire client, fake upstream recording received texts): 2-8 query messages per connection; selects / joins / explain / show / describe over allowed and forbidden topics, texts of 400-700 bytes with the join or second topic placed around byte 512 (white-space or column-list padding), trailing ';' variants, SET/RESET/empty/garbage, exact repeats and same-cache-key variants (cache hits), near misses of an allowed statement on the same connection (topic / join-topic names differing in a digit, in a digit-only segment after '-' '.' '_', in trailing punctuation, quotes, inner white space, a non-ASCII letter; numbers in LIMIT / offset / literal positions) with ACLs allowing exactly one of the two names, ACLs written with every path.Match feature ('?', classes, negated classes, escapes, malformed patterns, blank entries) in allow and in deny lists, raw configured lists that are blank-only / white-space-only / padded / duplicated / nil / empty (handed to proxy.New as configuration, so the ACL is built by the production path) over topics that match only through them, keyword case and multi-byte white space; 11 ACL shapes (allow lists, deny lists, patterns, empty); cache off / tiny / large. Non-trivial = at least one text is forwarded and at least one refused, or a text longer than 512 bytes is involved; distinct = distinct (ACL, cache, messages)")
 	var coq, jsons []string
 	runOne := func(cs c37Case, kind string) {
 		obs := c37Run(cs)
@@ -850,6 +897,12 @@ func TestVerifC37(t *testing.T) {
 			c37Case{Deny: []string{"pii-?"}, Msgs: [][]byte{[]byte("select * from pii-1"), []byte("describe pii-x"), []byte("select * from orders o join pii-2 p on o._key = p._key"), []byte("select * from orders")}},
 			c37Case{Allow: []string{"*"}, Deny: []string{"audit-[0-9]"}, TTL: 60, Max: 8, Msgs: [][]byte{[]byte("show partitions from audit-7"), []byte("explain select * from audit-3"), []byte("select * from audit-x")}},
 			c37Case{Allow: []string{"orders-[a-c]", "t[^x]", "[abc"}, Msgs: [][]byte{[]byte("select * from orders-a"), []byte("select * from orders-d"), []byte("describe ty"), []byte("describe tx"), []byte("describe [abc")}},
+		)
+		// an allow list of blank entries is not an empty allow list
+		corpus = append(corpus,
+			c37Case{Allow: []string{""}, Msgs: [][]byte{[]byte("select * from orders"), []byte("describe secret"), []byte("show topics"), []byte("set x = 1")}},
+			c37Case{Allow: []string{" ", ""}, Deny: []string{"secret"}, TTL: 60, Max: 4, Msgs: [][]byte{[]byte("select * from orders o join payments p on o._key = p._key"), []byte("select * from secret")}},
+			c37Case{Deny: []string{""}, Msgs: [][]byte{[]byte("show topics"), []byte("select * from orders")}},
 		)
 		if os.Getenv("VERIF_NO_CORPUS") != "" { // sensitivity experiments: generated cases only
 			corpus = nil
